@@ -92,7 +92,33 @@ fn main() {
             let mut samples = rep.total.nontrivial_samples.clone();
             samples.extend(rep.total.samples.iter().cloned());
             samples.truncate(12);
+            // dispatch coverage (hook H6): which (top mode, checkpoint live?, next character class)
+            // triples the main loop dispatched on, over all explored inputs
+            let mut cover_rows: Vec<serde_json::Value> = Vec::new();
+            let mut covered = 0usize;
+            {
+                use sas_lexer::verif::{cover_index_pub, CLASS_NAMES, MODE_NAMES};
+                for (mi, mname) in MODE_NAMES.iter().enumerate() {
+                    for ck in [false, true] {
+                        let classes: Vec<&str> = CLASS_NAMES
+                            .iter()
+                            .enumerate()
+                            .filter(|(ci, _)| {
+                                let idx = cover_index_pub(mi, ck, *ci);
+                                rep.total.cover[idx / 64] >> (idx % 64) & 1 == 1
+                            })
+                            .map(|(_, n)| *n)
+                            .collect();
+                        covered += classes.len();
+                        if !classes.is_empty() {
+                            let missing: Vec<&str> = CLASS_NAMES.iter().filter(|n| !classes.contains(n)).copied().collect();
+                            cover_rows.push(json!({"mode": mname, "checkpoint_live": ck, "classes_seen": classes.len(), "classes_not_seen": missing}));
+                        }
+                    }
+                }
+            }
             let doc = json!({
+                "dispatch_coverage": {"triples_covered": covered, "rows": cover_rows},
                 "property": prop,
                 "tier": if tier == Tier::Quick { "quick" } else { "thorough" },
                 "build": build_name(&args),
